@@ -107,6 +107,7 @@ struct World {
     dg_owed: [std::collections::VecDeque<String>; 2], // datagrams accepted by send_datagram, not yet seen on the wire
     dg_q: [std::collections::VecDeque<String>; 2], // receiving side: the datagrams the endpoint's buffer must hold (shadow)
     dg_q_ok: [bool; 2], // … as long as the shadow is certain
+    tabled: [std::collections::BTreeSet<u32>; 2], // ids of Connects this endpoint has taken in (not refused) and its application has not accepted yet
     free_ids: [std::collections::HashSet<u32>; 2],   // flow ids an endpoint has certainly let go of (and not taken up again)
     bind_ids: [std::collections::HashSet<u32>; 2],   // flow ids under which an endpoint has a bind request out
     port_handle: HashMap<u64, [Option<usize>; 2]>,
@@ -252,6 +253,7 @@ impl World {
             dg_owed: [std::collections::VecDeque::new(), std::collections::VecDeque::new()],
             dg_q: [std::collections::VecDeque::new(), std::collections::VecDeque::new()],
             dg_q_ok: [true; 2],
+            tabled: [std::collections::BTreeSet::new(), std::collections::BTreeSet::new()],
             free_ids: [std::collections::HashSet::new(), std::collections::HashSet::new()],
             bind_ids: [std::collections::HashSet::new(), std::collections::HashSet::new()],
             port_handle: HashMap::new(),
@@ -483,7 +485,9 @@ impl World {
             self.drawn_seen[e] += drawn.len();
             if std::env::var("PVH_DBG").is_ok() { eprintln!("drawn {e} {:x?} seen {:x?}", drawn, self.seen_ids); }
             if drawn.iter().any(|id| self.seen_ids.contains(id)) { self.any_reuse = true; }
-            if drawn.iter().any(|id| self.seen_ids.contains(id) && !self.reuse_is_clean(*id)) {
+            // (an id the endpoint itself holds an unaccepted incoming stream for is not a *re*-use: nothing has
+            // let go of it — proposing it is judged by `connect-id-in-use`)
+            if drawn.iter().any(|id| self.seen_ids.contains(id) && !self.tabled[e].contains(id) && !self.reuse_is_clean(*id)) {
                 self.reused = true;
             }
         }
@@ -519,7 +523,9 @@ impl World {
             self.est[e].clear();
             self.pend[e].clear();
             self.inc[e].clear();
+            self.tabled[e].clear();
             self.bind_wire[e].clear();
+            self.tabled[e].clear();
         }
         // endpoint e is running: no terminating stimulus so far, task not finished
         let up_e = !self.view[e].exited && self.view[e].terminated_by.is_none();
@@ -591,6 +597,19 @@ impl World {
                         }
                     }
                     if op == 0 { self.free_ids[e].remove(&id); }
+                    if op == 0 {
+                        // the Connect is dispatched at once (the receive loop is not waiting on an earlier item): unless
+                        // it is refused in this very step, the flow is the endpoint's from now on — also while the
+                        // hand-over to a full accept queue is still waiting
+                        let waiting = self.backlog[e][0] > self.opts[e].accept_cap || (self.opts[e].bind_cap > 0 && self.backlog[e][1] > self.opts[e].bind_cap);
+                        let reset_id = format!("wire {}", hexd(&[&[0x72u8][..], &id.to_be_bytes()[..]].concat()));
+                        let refused = evs.split("; ").any(|x| x == reset_id);
+                        let known = self.est[e].contains_key(&id) || self.pend[e].contains_key(&id) || self.tabled[e].contains(&id);
+                        if frame_valid(t[2]) && id != 0 && up_e && self.view[e].mux_alive && !lagging && !self.in_batch && !waiting && !refused && !known && clean {
+                            self.tabled[e].insert(id);
+                        }
+                    }
+                    if op == 2 { self.tabled[e].remove(&id); }
                     if op == 0 { self.backlog[e][0] += 1; }
                     if op == 5 { self.backlog[e][1] += 1; }
                     if op == 0 {
@@ -620,6 +639,8 @@ impl World {
                 self.backlog[e][0] = self.backlog[e][0].saturating_sub(1);
                 let h: usize = h.parse().unwrap();
                 let port: u64 = port.parse().unwrap();
+                // (from now on the application holds the stream: `est` / the handle views take over)
+                match self.inc[e].get(&port) { Some(id) => { self.tabled[e].remove(id); } None => self.tabled[e].clear() }
                 let mut hi = HInfo { alive: true, ..HInfo::default() };
                 if let Some((oe, req)) = self.open_ports.get(&port).copied() {
                     if clean {
@@ -739,6 +760,7 @@ impl World {
                 self.est[e].clear();
                 self.pend[e].clear();
                 self.inc[e].clear();
+                self.tabled[e].clear();
                 // C06, "the peer is told": the application lets go of a stream it has not shut down while
                 // the peer application may still be reading it. Unless a Reset of that flow has already
                 // passed in either direction, only a Reset from this endpoint can end the peer's reads,
@@ -877,11 +899,13 @@ impl World {
                 }
             }
             ("dropmux", ["unit"]) => {
+                self.tabled[e].clear();
                 self.view[e].mux_alive = false;
                 self.view[e].terminated_by = Some("dropmux".into());
                 self.est[e].clear();
                 self.pend[e].clear();
                 self.inc[e].clear();
+                self.tabled[e].clear();
             }
             ("deliver", _) => {
                 let invalid_frame = t[1] == "bin" && t.get(2).is_some_and(|h| !frame_valid(h));
@@ -915,6 +939,7 @@ impl World {
                         self.est[e].clear();
                         self.pend[e].clear();
                         self.inc[e].clear();
+                        self.tabled[e].clear();
                     }
                 } else if let Some((op, id, p)) = parse_frame(t[2]) {
                     let evl: Vec<&str> = evs.split("; ").filter(|s| !s.is_empty()).collect();
@@ -1107,6 +1132,7 @@ impl World {
                                 }
                             }
                             2 => {
+                                self.tabled[e].remove(&id);
                                 self.rst_out[e].insert(id);
                                 if self.bind_wire[e].remove(&id) == Some(2) && clean && !self.reused && !self.double_reply && !lagging && up_e {
                                     let msg = format!("endpoint {} answered Bind on flow {id:08x} with Finish (accepted) and afterwards, having received nothing else on that id, put Reset {id:08x} on the wire (at `{}`): the stray Reset rejects or closes whatever the requester uses the freed id for next", NAMES[e], t.join(" "));
@@ -1125,8 +1151,8 @@ impl World {
                                 .and_then(|(_, _, p)| self.open_ports.get(&u64::from(u16::from_be_bytes([p[4], p[5]]))).copied())
                                 .filter(|(oe, _)| *oe == e).map(|(_, req)| req));
                             let other_pending = self.pend[e].get(&id).is_some_and(|r| this_req.is_some_and(|q| q != *r));
-                            if clean && !lagging && !reused_before && (self.est[e].contains_key(&id) || other_pending) {
-                                let how = if self.est[e].contains_key(&id) { "an established stream its application still holds" } else { "another open request of its own that is still unanswered" };
+                            if clean && !lagging && !reused_before && (self.est[e].contains_key(&id) || other_pending || self.tabled[e].contains(&id)) {
+                                let how = if self.est[e].contains_key(&id) { "an established stream its application still holds" } else if other_pending { "another open request of its own that is still unanswered" } else { "a stream of the peer whose Connect it has taken in and not refused (it waits for the application in, or at, the accept queue)" };
                                 let msg = format!("endpoint {} proposed flow id {id:08x} in a Connect (at `{}`) while it uses that id for {how}", NAMES[e], t.join(" "));
                                 // (recorded under its own key: the id was in use, not released and drawn again)
                                 if !self.fails.iter().any(|f| f.0 == "C07" && f.1 == "connect-id-in-use") {
@@ -1180,9 +1206,18 @@ impl World {
                     self.view[e].handles[h] = hi;
                     self.exchanged = true;
                 }
-                ["opendone", req, _other] => {
+                ["opendone", req, other] => {
                     let req: u64 = req.parse().unwrap();
                     self.pend[e].retain(|_, r| *r != req);
+                    // C07: a stream request ends with a stream, with FlowIdRejected after its bounded retries, or —
+                    // only when the connection has ended — with Closed. `Closed` from a running endpoint whose
+                    // Multiplexor is alive, between two conforming endpoints, is a request that was lost.
+                    let conn_ended = self.view[0].exited || self.view[1].exited || self.view[0].terminated_by.is_some() || self.view[1].terminated_by.is_some() || self.faulted;
+                    if *other == "closed" && clean && !conn_ended && self.view[e].mux_alive && self.view[e].opens.contains_key(&req) {
+                        *self.mon.entry("open-closed-while-up/judged").or_insert(0) += 1;
+                        let msg = format!("stream request {req} of endpoint {} resolved `Closed` while the connection is up, its Multiplexor is alive and both ends are conforming endpoints: the request got neither a stream nor FlowIdRejected — it was dropped (at `{}`)", NAMES[e], t.join(" "));
+                        self.fail("C07", "open-closed-while-up", msg);
+                    }
                     if self.view[e].opens.remove(&req).is_none() {
                         self.fail("C07", "open-twice", format!("open request {req} resolved twice"));
                     }
@@ -1215,6 +1250,7 @@ impl World {
                 }
                 ["exit", r] => {
                     self.view[e].exited = true;
+                    self.tabled[e].clear();
                     self.est[e].clear();
                     self.pend[e].clear();
                     self.inc[e].clear();
@@ -1240,6 +1276,7 @@ impl World {
             self.est[e].clear();
             self.pend[e].clear();
             self.inc[e].clear();
+            self.tabled[e].clear();
         }
     }
 
@@ -1392,6 +1429,10 @@ fn run_case(r: &mut Rng, focus: Focus, len: usize) -> World {
         oa.accept_cap = r.range(1, 2) as usize;
         ob.accept_cap = r.range(1, 2) as usize;
     }
+    // … and, in half of the bursts, the acceptor asks for a stream of its own while its receive loop is
+    // waiting for room in the accept queue, and draws the very id of the Connect that is waiting
+    let burst_e = r.below(2) as usize;
+    let collide = burst && r.chance(1, 2);
     let mut w = World::new([oa, ob]);
     w.silent = matches!(focus, Focus::C08) && r.chance(1, 4);
     // scripted ids: small alphabet so that collisions and reuse happen
@@ -1402,6 +1443,7 @@ fn run_case(r: &mut Rng, focus: Focus, len: usize) -> World {
     // a third kind of script: pairwise distinct small ids (so no id is ever reused) with draws of the
     // reserved id 0 sprinkled in — what the generator does with a zero draw while low ids are in use
     let zero_ids = !small_ids && matches!(focus, Focus::C07 | Focus::C10) && r.chance(1, 2) && !burst;
+    let mut scripts: Vec<Vec<String>> = vec![];
     for e in 0..2 {
         let ks: Vec<String> = if zero_ids {
             let mut ids: Vec<u64> = (1..=24).map(|k| k + 24 * e as u64).collect();
@@ -1412,6 +1454,15 @@ fn run_case(r: &mut Rng, focus: Focus, len: usize) -> World {
         } else {
             (0..24).map(|_| if small_ids { s(r.range(0, 4)) } else { s(r.range(1, 0xffff_ffff)) }).collect()
         };
+        scripts.push(ks);
+    }
+    if collide {
+        // the Connect that finds the accept queue full is the (capacity + 1)-th of the burst
+        let cap = w.opts[1 - burst_e].accept_cap;
+        let x = scripts[burst_e][cap].clone();
+        scripts[1 - burst_e][0] = x;
+    }
+    for (e, ks) in scripts.into_iter().enumerate() {
         let mut t = vec![s("rng")];
         t.extend(ks);
         w.stim(e, &t);
@@ -1421,7 +1472,7 @@ fn run_case(r: &mut Rng, focus: Focus, len: usize) -> World {
     tags[0] = r.next() as u8;
     tags[1] = r.next() as u8;
     if burst {
-        let e = r.below(2) as usize;
+        let e = burst_e;
         let n = w.opts[1 - e].accept_cap as u64 + r.range(1, 2);
         for _ in 0..n {
             let req = w.next_req; w.next_req += 1; w.view[e].rng_left -= 4;
@@ -1430,7 +1481,16 @@ fn run_case(r: &mut Rng, focus: Focus, len: usize) -> World {
         }
         // the Connects arrive back to back; the acceptor's application is busy (it rarely accepts now)
         while w.deliver_next(1 - e) {
-            if r.chance(1, 8) { w.stim(1 - e, &[s("accept")]); }
+            if !collide && r.chance(1, 8) { w.stim(1 - e, &[s("accept")]); }
+        }
+        if collide {
+            // the acceptor's own request, made while a Connect of the peer waits for room in the accept queue
+            let req = w.next_req; w.next_req += 1; w.view[1 - e].rng_left -= 4;
+            w.stim(1 - e, &[s("open"), s(req), hexd(&r.bytes(2)), s(1000 + req)]);
+            // its application now takes the streams; everything travels
+            for _ in 0..n { w.stim(1 - e, &[s("accept")]); }
+            for _ in 0..3 { while w.deliver_next(e) {} while w.deliver_next(1 - e) {} }
+            w.stim(1 - e, &[s("accept")]);
         }
         while w.deliver_next(e) {}
     }
